@@ -3,7 +3,8 @@
 Tie: correspondence (C) + relations on real runs (R).  Generated concave problems (linear
 regression, binary and multinomial logit likelihoods on synthetic data, 1-4 free parameters, with
 and without a fixed parameter) x starting points x every name of `optimization.algorithms` +
-'automatic' x bound configurations (none, inactive, active at the optimum, one-sided) are estimated
+'automatic' x bound configurations (none, inactive, active at the optimum, one-sided, sign constraints = bounds exactly 0
+active at the optimum), plus runs stopped before convergence (max_iterations 1-2 from a poor start), are estimated
 with the real `BIOGEME.estimate()` / `quick_estimate()` in scratch directories.
 
   * correspondence: the sign flip (`NegativeLikelihood` vs `Estimate.negF/negFG/negFGH`, bit for
@@ -60,7 +61,8 @@ ASSUMPTIONS = [
     'starting point inside the bounds',
 ]
 RULE = (
-    'one case = one real estimation (problem x bounds x algorithm x start); non-trivial = at least 2 free parameters or an active/one-sided bound or a fixed parameter'
+    'one case = one real estimation (problem x bounds x algorithm x start, including bounds exactly 0 and runs that stop before convergence); '
+    'non-trivial = at least 2 free parameters or an active/one-sided bound or a fixed parameter'
 )
 TOL = 'sign flip, write-back, option values: exact; recomputed L/g/H/BHHH: rel 1e-9; bounds: 1e-10; KKT: the algorithm\'s tolerance (x1.001); first-order inequality: 1e-9*(1+|L|) + 1e-9*|g.dx|'
 
